@@ -1142,6 +1142,12 @@ impl<'a> JitMemory<'a> {
     pub fn get_prog(&self) -> MachineCode {
         unsafe { mem::transmute(self.contents.as_ptr()) }
     }
+
+    /// Bytes emitted into this memory (verification hook).
+    #[cfg(feature = "verif-hooks")]
+    pub fn verif_code(&self) -> &[u8] {
+        &self.contents[..self.offset]
+    }
 }
 
 impl Index<usize> for JitMemory<'_> {
